@@ -32,8 +32,12 @@ def assigns_attr(node, attr_text):
         ts = [a.target]
     for t in ts:
         for tt in ast.walk(t):
-            if isinstance(tt, ast.Attribute) and isinstance(tt.ctx, ast.Store) and ast.unparse(tt) == attr_text:
-                return True
+            if isinstance(tt, ast.Attribute) and isinstance(tt.ctx, ast.Store):
+                if ast.unparse(tt) == attr_text:
+                    return True
+                g = getattr(node, "cfg", None)
+                if g is not None and not ast.unparse(tt).startswith("self.") and g.canon_target(node, tt) == attr_text:
+                    return True
     return False
 
 
